@@ -266,6 +266,7 @@ def run_sync_case(kind, timeout):
         fn = {"returns": returns, "raises": raises, "sleeps": sleeps, "never": never, "plain": plain, "busy_then_done": busy_then_done,
               "plain_raises": plain_raises, "gen_style": gen_style}[kind]
         events._set_running_loop(None)
+        again = None
         try:
             try:
                 r = ("ok", io.run_sync(fn, timeout=timeout))
@@ -273,10 +274,19 @@ def run_sync_case(kind, timeout):
                 r = ("deadlock", str(e)[:40])
             except BaseException as e:
                 r = ("exc", type(e).__name__)
+            vt1 = w.loop.vtime
+            if r[0] != "deadlock":
+                # the loop is used again: a second run_sync must not be ended by anything the first one left queued
+                try:
+                    again = ("ok", io.run_sync(sleeps))
+                except Livelock as e:
+                    again = ("deadlock", str(e)[:40])
+                except BaseException as e:
+                    again = ("exc", type(e).__name__, str(e)[:60])
         finally:
             events._set_running_loop(w.loop)
         w.pump()
-        return {"res": r, "marks": marks, "vtime": w.loop.vtime,
+        return {"res": r, "marks": marks, "vtime": vt1, "again": again,
                 "escaped": [str(c.get("message"))[:80] for c in w.loop_errors()]}
 
 
@@ -331,8 +341,12 @@ def judge_sync(kind, timeout, o):
     elif kind == "sleeps" and timeout is not None and timeout < 1.0:
         if o["res"] != ("exc", "TimeoutError"):
             bad.append(("run_sync-timeout:%s" % (o["res"],), "expected TimeoutError, got %r" % (o["res"],)))
-    elif o["res"] != want:
+    elif o["res"] != want and not (timeout == 0 and timeout is not None and o["res"] == ("exc", "TimeoutError")):
+        # (with a zero timeout the deadline and the function's completion fall into the same loop iteration: a tie)
         bad.append(("run_sync-result", "%s -> %r, expected %r" % (kind, o["res"], want)))
+    if o.get("again") not in (None, ("ok", "slept")):
+        bad.append(("second-run_sync-on-the-same-loop", "after run_sync(%s, timeout=%r) -> %r a second run_sync(sleep 1 s) on the "
+                    "same loop gave %r, expected ('ok', 'slept')" % (kind, timeout, o["res"], o["again"])))
     if o["escaped"]:
         bad.append(("run_sync-exception-escaped", repr(o["escaped"][:1])))
     return bad
@@ -404,7 +418,7 @@ class C38(Check):
             st.setmax("max_program_length", L)
         elif part[0] == "sync":
             for kind in ("returns", "raises", "sleeps", "never", "plain", "plain_raises", "gen_style", "busy_then_done"):
-                for timeout in (None, 0.5, 2) + ((0, 0.0) if kind in ("never", "sleeps") else ()):
+                for timeout in (None, 0.5, 2, 0, 0.0):
                     o = run_sync_case(kind, timeout)
                     st.ev()
                     st.transitions += 1
